@@ -613,10 +613,40 @@ def w_cif(r, ver, value):
     return toks
 
 
+def order_case(r):
+    """CIF 1.1 mode, C13_first_refused: a CIF holding elements of BOTH refusal kinds (a character outside CIF 1.1 in a code, a
+    data name or a string: CIF_DISALLOWED_CHAR; a list, a table, a string that needs a text field and holds <LF>; :
+    CIF_DISALLOWED_VALUE) in random order among harmless items, as scalars or in a loop, in a block or a save frame — the code
+    cif_write returns is that of the element its walk meets first"""
+    bad_char = [["C1:" + hexs("\u00e9")], ["C0:" + hexs("x\u00e9")], ["C1:" + hexs("\u00e9\n;x")]]
+    bad_value = [["[", "]"], ["{", "}"], ["[", "C1:" + hexs("\u00e9"), "]"], ["C1:" + hexs("y\n;x")], ["{", "K:" + hexs("\u00e9"), "U", "}"]]
+    good = [["U"], ["N"], ["C0:" + hexs("v")], ["C1:" + hexs("a b")], ["M0:" + hexs("12")]]
+    vals = [r.choice(bad_char), r.choice(bad_value)] + [r.choice(good) for _ in range(r.randint(0, 2))]
+    if r.random() < 0.3:
+        vals.append(r.choice(bad_char + bad_value))
+    r.shuffle(vals)
+    names = ["_a", "_b", "_c", "_d", "_e"][:len(vals)]
+    if r.random() < 0.25:
+        names[r.randrange(len(names))] = "_\u00e9"                  # a bad data name: met before its value
+    if r.random() < 0.5:
+        loop = ["L:-:%d" % len(vals)] + [hexs(x) for x in names] + ["P"] + [t for v in vals for t in v] + ["Z"]
+    else:
+        loop = ["L:~:%d" % len(vals)] + [hexs(x) for x in names] + ["P"] + [t for v in vals for t in v] + ["Z"]
+    code = "\u00e9" if r.random() < 0.15 else "b"
+    if r.random() < 0.3:
+        body = ["F:" + hexs("f")] + loop + ["E"] + (["L:-:1", hexs("_z")] + ["P"] + r.choice(bad_char + bad_value + good) + ["Z"])
+    else:
+        body = loop
+    return ["B:" + hexs(code)] + body + ["E"]
+
+
 def generate_for(ver, family, seed, tier):
     r = rng(seed, family)
     n = 500 if tier == "quick" else 12000
     for i in range(n):
+        if ver == 1 and r.random() < 0.08:
+            yield "write %d %s" % (ver, " ".join(order_case(r)))
+            continue
         toks = w_cif(r, ver, make_value_fn(ver))
         yield "write %d %s" % (ver, " ".join(toks) if toks else "-")
 
